@@ -301,35 +301,27 @@ pub(crate) fn stub_new_pad(key: &[u8]) -> Rc4 {
     Rc4 { state, i: 0, j: 0 }
 }
 
-// ---- constructor-level stream harness (C09): fixed concrete state instead of the key schedule ----
-fn identity_twisted() -> [u8; 256] {
-    // a fixed permutation: i -> 167*i + 13 mod 256
-    let mut st = [0u8; 256];
-    let mut k = 0;
-    while k < 256 {
-        st[k] = (k as u8).wrapping_mul(167).wrapping_add(13);
-        k += 1;
-    }
-    st
+// ---- constructor-level stream harness (C09): RC4 as a position-indexed pad ----
+pub(crate) fn stub_new_any_pad(_key: &[u8]) -> Rc4 {
+    let state: [u8; 256] = kani::any();
+    // remember the pad for the harness (ghost slots hold 64 bytes each)
+    verif_oracle::ghost_store(4, &state[0..64]);
+    verif_oracle::ghost_store(5, &state[64..128]);
+    verif_oracle::ghost_store(6, &state[128..192]);
+    verif_oracle::ghost_store(7, &state[192..256]);
+    Rc4 { state, i: 0, j: 0 }
 }
-pub(crate) fn stub_new_identity(_key: &[u8]) -> Rc4 {
-    Rc4 { state: identity_twisted(), i: 0, j: 0 }
-}
-/// keystream bytes 1024..1024+263 of the textbook PRGA from that state
-pub(crate) fn reference_keystream_after_drop() -> [u8; 263] {
-    let mut st = identity_twisted();
-    let mut i = 0u8;
-    let mut j = 0u8;
-    let mut k = 0;
-    while k < 1024 {
-        let _ = ref_step(&mut st, &mut i, &mut j);
-        k += 1;
+pub(crate) fn last_pad() -> [u8; 256] {
+    let mut p = [0u8; 256];
+    let mut s = 0;
+    while s < 4 {
+        let (g, _) = verif_oracle::ghost_load(4 + s);
+        let mut k = 0;
+        while k < 64 {
+            p[s * 64 + k] = g[k];
+            k += 1;
+        }
+        s += 1;
     }
-    let mut ks = [0u8; 263];
-    let mut k = 0;
-    while k < 263 {
-        ks[k] = ref_step(&mut st, &mut i, &mut j);
-        k += 1;
-    }
-    ks
+    p
 }
